@@ -114,7 +114,7 @@ M = [
 ]
 
 
-def sh(cmd, cwd=WT, timeout=1800):
+def sh(cmd, cwd=WT, timeout=420):
     env = dict(os.environ, CARGO_TARGET_DIR=os.path.join(WT, "target"), CARGO_NET_OFFLINE="true")
     return subprocess.run(cmd, shell=True, cwd=cwd, env=env, capture_output=True, text=True, timeout=timeout)
 
